@@ -24,7 +24,7 @@ def work(job):
             if rc:
                 res[pid] = (rc, fails[:4])
         t = None
-        if tests:
+        if tests and not res:
             wt = os.path.dirname(os.path.dirname(os.path.dirname(patch)))
             d2 = tempfile.mkdtemp(prefix='pkbenignt-')
             try:
